@@ -239,7 +239,7 @@ macro_rules! bin_decode {
     }};
 }
 
-//@ unit c15_bin_decode stubs=once_cell::imp::initialize_inner=>crate::serialize::verif_h_serde_rt::stub_once_init,crate::util::try_format=>crate::verif_support::stub_try_format,chrono::Local::now=>crate::verif_support::stub_local_now prop=C15,C02,C03 mem=3 bound="every i32 / i64 payload handed to the binary visitors of Date, Timestamp, Time, IntervalYM, IntervalDT: Ok(v) iff the payload is inside the type's documented range, and then v has exactly that count"
+//@ unit c15_bin_decode q23=1 stubs=once_cell::imp::initialize_inner=>crate::serialize::verif_h_serde_rt::stub_once_init,crate::util::try_format=>crate::verif_support::stub_try_format,chrono::Local::now=>crate::verif_support::stub_local_now prop=C15,C02,C03 mem=3 bound="every i32 / i64 payload handed to the binary visitors of Date, Timestamp, Time, IntervalYM, IntervalDT: Ok(v) iff the payload is inside the type's documented range, and then v has exactly that count"
 fn c15_bin_decode() {
     let a: i32 = kani::any();
     let b: i64 = kani::any();
